@@ -3,7 +3,7 @@
    fold_scores : the (calibrated) scores of one fold, computed from fold model f's raw scores of
    exactly the rows of fold f. *)
 From Coq Require Import Permutation.
-From Mokaverif Require Import Model.Base Model.Tdc Model.Calibrate Model.Brew Proofs.BrewP.
+From Mokaverif Require Import Model.Base Model.Tdc Model.Calibrate Model.Brew Proofs.BrewP Proofs.BrewEnsP.
 Open Scope nat_scope.
 
 (* exactly k folds, a partition of the PSMs, all PSMs of one spectrum in the same fold *)
@@ -56,6 +56,23 @@ Theorem C02_predict_chunk_free : forall do_cal k thr fold_of targets raw,
   bw_predict do_cal c k thr fold_of targets raw = bw_predict do_cal c' k thr fold_of targets raw.
 Proof. exact predict_chunk_independent. Qed.
 Print Assumptions C02_predict_chunk_free.
+
+(* the held-out guarantee as a predicate on a scoring scheme (uses r f: the score of row r is computed from the
+   output of model f; train: the training rows of every model):
+     heldout_ok n k uses train := forall r f, r < n -> f < k -> uses r f = true -> ~ In r (nth f train []).
+   Per-fold mode (C02_routing: row r is scored by the model of its fold alone): it holds *)
+Theorem C02_heldout_per_fold : forall keys k folds, bw_split keys k = Ok folds ->
+  heldout_ok (length keys) k (fun r f => Nat.eqb (nth r (bw_fold_of folds (length keys)) 0) f)
+             (bw_train_sets folds (length keys)).
+Proof. exact plain_heldout_ok. Qed.
+Print Assumptions C02_heldout_per_fold.
+
+(* ensemble=True (R2.22; the property text excludes it: "ensemble mode off"): every row is scored from the output
+   of EVERY model (C04_ensemble_leak), and the guarantee is false for every dataset with a PSM and k >= 2 folds *)
+Theorem C02_heldout_ensemble_refuted : forall keys k folds, 2 <= k -> 1 <= length keys -> bw_split keys k = Ok folds ->
+  ~ heldout_ok (length keys) k (fun _ _ => true) (bw_train_sets folds (length keys)).
+Proof. exact ens_heldout_refuted. Qed.
+Print Assumptions C02_heldout_ensemble_refuted.
 
 (* non-vacuity: 7 PSMs in 4 spectra, 3 folds; one spectrum straddles a nominal split point *)
 Example C02_example :
